@@ -102,7 +102,7 @@ Definition is (l : list N) (s : string) : bool := leqb l (s2l s).
 Definition other_names : list string :=
   ["Other"; "ConnectionReset"; "ConnectionAborted"; "ConnectionRefused"; "PermissionDenied";
    "AddrInUse"; "AlreadyExists"; "NotFound"; "Unsupported"; "OutOfMemory"; "HostUnreachable";
-   "AddrNotAvailable"; "Uncategorized"]%string.
+   "AddrNotAvailable"; "Uncategorized"; "Interrupted"; "WouldBlock"]%string.
 
 Definition show_kind (k : kind) : list N :=
   match k with
